@@ -31,21 +31,21 @@ func unsafeAdd(in *interpreter, u uptr, n int64) value {
 	case *value:
 		org, ok := in.side.origin[p]
 		if !ok {
-			panic(unsupported{"unsafe.Add: pointer of unknown origin"})
+			panic(unsupported{reason: "unsafe.Add: pointer of unknown origin"})
 		}
 		base = org[:cap(org)]
 	case *viewptr:
 		base = p.base
 	default:
-		panic(unsupported{fmt.Sprintf("unsafe.Add on %T", u.p)})
+		panic(unsupported{reason: fmt.Sprintf("unsafe.Add on %T", u.p)})
 	}
 	if len(base) > 0 {
 		if _, ok := scalarByte(base[0]); !ok {
-			panic(unsupported{"unsafe.Add over non-byte elements"})
+			panic(unsupported{reason: "unsafe.Add over non-byte elements"})
 		}
 	}
 	if n < 0 || n > int64(len(base)) {
-		panic(unsupported{"unsafe.Add outside the backing array"})
+		panic(unsupported{reason: "unsafe.Add outside the backing array"})
 	}
 	if n == int64(len(base)) {
 		return uptr{p: &viewptr{base: base[n:], t: types.Typ[types.Uint8]}, t: types.NewPointer(types.Typ[types.Uint8])}
@@ -98,12 +98,12 @@ func reinterpret(in *interpreter, u uptr, d *types.Pointer) value {
 		} else if a, ok := (*p).(array); ok {
 			base = a
 		} else {
-			panic(unsupported{fmt.Sprintf("unsafe reinterpretation of %s as %s (no byte origin)", u.t, d)})
+			panic(unsupported{reason: fmt.Sprintf("unsafe reinterpretation of %s as %s (no byte origin)", u.t, d)})
 		}
 	}
 	if len(base) > 0 {
 		if _, ok := scalarByte(base[0]); !ok {
-			panic(unsupported{fmt.Sprintf("unsafe reinterpretation of non-byte memory as %s", d)})
+			panic(unsupported{reason: fmt.Sprintf("unsafe reinterpretation of non-byte memory as %s", d)})
 		}
 	}
 	return &viewptr{base: base, t: d.Elem()}
@@ -118,7 +118,7 @@ func (p *viewptr) loadAt(in *interpreter, off int64, T types.Type) value {
 	case *types.Basic:
 		w, _, ok := basicInfo(T)
 		if !ok || w == 0 {
-			panic(unsupported{"view load of " + T.String()})
+			panic(unsupported{reason: "view load of " + T.String()})
 		}
 		n := int64(w / 8)
 		if off+n > int64(len(p.base)) {
@@ -128,7 +128,7 @@ func (p *viewptr) loadAt(in *interpreter, off int64, T types.Type) value {
 		for k := int64(0); k < n; k++ {
 			b, ok := scalarByte(p.base[off+k])
 			if !ok {
-				panic(unsupported{"view load over non-byte memory"})
+				panic(unsupported{reason: "view load over non-byte memory"})
 			}
 			if e == nil {
 				e = b
@@ -145,7 +145,7 @@ func (p *viewptr) loadAt(in *interpreter, off int64, T types.Type) value {
 		}
 		return out
 	}
-	panic(unsupported{"view load of " + T.String()})
+	panic(unsupported{reason: "view load of " + T.String()})
 }
 
 func (p *viewptr) storeAt(in *interpreter, off int64, T types.Type, v value) {
@@ -153,7 +153,7 @@ func (p *viewptr) storeAt(in *interpreter, off int64, T types.Type, v value) {
 	case *types.Basic:
 		w, _, ok := basicInfo(T)
 		if !ok || w == 0 {
-			panic(unsupported{"view store of " + T.String()})
+			panic(unsupported{reason: "view store of " + T.String()})
 		}
 		n := int64(w / 8)
 		if off+n > int64(len(p.base)) {
@@ -177,7 +177,7 @@ func (p *viewptr) storeAt(in *interpreter, off int64, T types.Type, v value) {
 		}
 		return
 	}
-	panic(unsupported{"view store of " + T.String()})
+	panic(unsupported{reason: "view store of " + T.String()})
 }
 
 func (p *viewptr) load(in *interpreter, T types.Type) value {
@@ -190,7 +190,7 @@ func (p *viewptr) load(in *interpreter, T types.Type) value {
 
 func (p *viewptr) store(in *interpreter, T types.Type, v value) {
 	if p.hdr != nil {
-		panic(unsupported{"store through a reinterpreted slice header"})
+		panic(unsupported{reason: "store through a reinterpreted slice header"})
 	}
 	p.storeAt(in, 0, T, v)
 }
@@ -212,7 +212,7 @@ func (p *viewptr) fieldAddr(in *interpreter, T types.Type, field int) value {
 func (p *viewptr) indexAddr(in *interpreter, T types.Type, idx int64) value {
 	at, ok := T.Underlying().(*types.Array)
 	if !ok {
-		panic(unsupported{"view index of " + T.String()})
+		panic(unsupported{reason: "view index of " + T.String()})
 	}
 	es := sizeofT(at.Elem())
 	if idx < 0 || idx >= at.Len() {
